@@ -282,7 +282,7 @@ void genStream(Prng& r, Plan& p, int tier)
 	p.ops.push_back(op("doc", {kind, (int64_t)(r.next() >> 20), (int64_t)r.below(7), budget}));
 	int nm = r.below(2) ? 0 : 1 + (int)r.below(3);
 	for (int i = 0; i < nm; i++)
-		p.ops.push_back(op("mut", {(int64_t)r.below(5), (int64_t)(r.next() >> 20)}));
+		p.ops.push_back(op("mut", {(int64_t)(r.below(6) == 0 ? 6 : r.below(5)), (int64_t)(r.next() >> 20)}));
 	// comments (accepted by the parser, not part of RFC 8259): their state must survive chunk boundaries too
 	int nc = r.below(3) == 0 ? 1 + (int)r.below(3) : 0;
 	for (int i = 0; i < nc; i++)
@@ -473,6 +473,17 @@ void runStream(const Plan& p)
 					std::string body = tokenLike(r);
 					text.insert(where, r.below(2) ? "/*" + body + "*/" : "//" + body + "\n");
 				}
+				continue;
+			}
+			if (std::abs(o.arg(0)) % 7 == 6)
+			{
+				// a leading zero (or "-0") in front of a number: not a JSON number any more, whole or in pieces
+				std::vector<size_t> starts;
+				for (size_t i = 0; i < text.size(); i++)
+					if (isdigit((unsigned char)text[i]) && (i == 0 || strchr("[,: \n\t-", text[i - 1])))
+						starts.push_back(i);
+				if (!starts.empty())
+					text.insert(starts[r.below((uint32_t)starts.size())], "0");
 				continue;
 			}
 			switch (std::abs(o.arg(0)) % 5)
